@@ -836,4 +836,38 @@ func (fr *Frame) checkJoin() {
 		why = ": expected one spawn loop with one `go` and one receive loop with one receive"
 	}
 	c.structural("frame", "C05.join", ok, fn.Pos(), "Run waits for every cell goroutine before it returns (one receive per spawned goroutine)"+why)
+
+	// no variable that the goroutine bodies capture is written by the launching function
+	// once the first goroutine may be running (from the spawn loop on): otherwise a body
+	// reads a value that depends on how far the launcher has got
+	conflict := ""
+	for b := range goLoop.blocks {
+		for _, in := range b.Instrs {
+			g, isGo := in.(*ssa.Go)
+			if !isGo {
+				continue
+			}
+			mc, isMC := g.Call.Value.(*ssa.MakeClosure)
+			if !isMC {
+				continue
+			}
+			for _, bind := range mc.Bindings {
+				al, isAlloc := bind.(*ssa.Alloc)
+				if !isAlloc {
+					continue
+				}
+				for _, wb := range fn.Blocks {
+					if !goLoop.header.Dominates(wb) {
+						continue // runs before any goroutine exists
+					}
+					for _, win := range wb.Instrs {
+						if st, isSt := win.(*ssa.Store); isSt && st.Addr == ssa.Value(al) {
+							conflict = fmt.Sprintf(": variable %s is captured by the cell goroutines and written by %s while they run", al.Comment, fn.Name())
+						}
+					}
+				}
+			}
+		}
+	}
+	c.structural("frame", "C05.captured-not-written", conflict == "", fn.Pos(), "no variable captured by the cell goroutines is written by the launching function after the first spawn"+conflict)
 }
